@@ -2340,4 +2340,5 @@ pub mod verif_hooks {
     }
 
     pub const DEFAULT_KEY_BUF_CAPACITY: usize = super::DEFAULT_KEY_BUF_CAPACITY;
+    pub const MAX_NESTED_DEPTH: usize = super::MAX_NESTED_DEPTH;
 }
